@@ -70,6 +70,37 @@ claim('C02',
       'Green-function calculator reporting the same D is NOT covered (Taylor inversion + eigh).',
       'DESIGN.md 3/C02, 2.1')
 
+claim('C03',
+      'Bounded symbolic verification (interstitial tensors): real Interstitial.diffusivity on z3 terms for all energies and '
+      'prefactors: D == D^T, R D R^T == D for every point-group operation, diagonal entries >= 0 and (by a solver-discharged lemma '
+      'chain: vanishing off-diagonals + non-negative diagonal, or in the thorough tier the sum-of-squares certificate / direct query) '
+      'v^T D v >= 0 for a symbolic direction; real elastodiffusion with ALL dipole components symbolic (energies on an enumerated '
+      'dyadic grid): index symmetries and invariance under every operation.',
+      'Vacancy-mediated tensors (bare vacancy, solute-solute, solute-vacancy, vacancy correction) are NOT covered: a change that only '
+      'breaks symmetry/positivity of Lij output is not detected. Exact verification crystals only; contracts as in C02.',
+      'DESIGN.md 3/C03, 2.1')
+
+claim('C04',
+      'Bounded symbolic verification: (a) real VacancyMediated.preene2betafree on fully symbolic arrays (energies, positive '
+      'prefactors, kT; enumerated lengths, every np.min path): outputs unchanged under a common energy shift of one species and its '
+      'transition states, joint prefactor scaling, and (kT,E)->(lambda kT, lambda E); (b) real Interstitial.diffusivity executed on '
+      'related symbolic inputs: common shift and joint prefactor scaling leave D unchanged, scaling every transition prefactor by '
+      'lambda>0 scales D by lambda (QF_NRA, all inputs).',
+      'Lij homogeneity/invariance itself and invariance under intra-cell site displacement are NOT covered (numerical Green function / '
+      'two different crystals). Interstitial part on exact verification crystals, solve branch in quick tier (pinv branch: thorough, '
+      'may be inconclusive); solve/pinv contracts include uniqueness instances.',
+      'DESIGN.md 3/C04')
+
+claim('C05',
+      'Bounded symbolic verification (interstitial part): real Interstitial.diffusivity executed twice on z3 terms, the second time with '
+      'one transition-state energy lowered by an arbitrary symbolic amount d>=0, one section per jump class; D\'_aa >= D_aa for every '
+      'axis and v^T(D\'-D)v >= 0 (lemma chain where symmetry makes the off-diagonals vanish; direct query in the thorough tier) decided '
+      'by z3 for all energies and all d.',
+      'Bare-vacancy and solute-solute coefficients and the large-omega2 regime are NOT covered (numerical GF, eigh): a change confined '
+      'to VacancyMediated.Lij is not detected (seed C05-large-om2-cutoff-max is missed for this reason). Exact crystals; prefactors '
+      'fixed to 1 in quick, symbolic in thorough.',
+      'DESIGN.md 3/C05, 2.1')
+
 na('C01', 'exact oracle is an infinite-state pair Markov chain reached through Brillouin-zone quadrature, LAPACK and hyp1f1/expi; '
           'agreement only to integration accuracy: no algebraic statement a solver can decide (DESIGN 5)')
 na('C06', 'identities hold only for the true lattice Green function of the omega0 network (numerical k-space integration); '
